@@ -1376,7 +1376,8 @@ def prove_parse(src_root, ex: Explorer):
 
             def pyvc_getattr(self, it2, name):
                 if name == 'search':
-                    return Native('search', lambda it3, a, k: Sym((w.MW if self.wildcard else w.MP)(self.u, z3str(unbox(a[0]))), 'bool'))
+                    # a match object or None: truth, bool(), `is None` / `is not None` all mean "the pattern matches"
+                    return Native('search', lambda it3, a, k: _MatchOrNone((w.MW if self.wildcard else w.MP)(self.u, z3str(unbox(a[0])))))
                 raise Unsupported(f'Pattern.{name}')
 
         def ctp(it2, f, a, k):
@@ -1976,6 +1977,21 @@ def prove_scan_directory(src_root, ex: Explorer):
 def unbox_real(v):
     from pyvc.values import z3real
     return z3real(unbox(v))
+
+
+class _MatchOrNone:
+    """result of Pattern.search: a match object (truthy) or None, decided by the formula f"""
+
+    def __init__(self, f):
+        self.f = f
+
+    def pyvc_truth(self, it2):
+        return self.f
+
+    def pyvc_is(self, it2, other):
+        if other is None:
+            return z3.Not(self.f)
+        return NotImplemented
 
 
 def prove_item_identity(src_root, ex: Explorer):
